@@ -150,7 +150,7 @@ def run_case(ctx, case, rng):
   if case % 3 == 0:
     # directed sweep
     variant = VARIANTS[(case // 3) % len(VARIANTS)]
-    spec = models.single_op_model(rng, variant, odd=True, wide=bool(rng.random() < 0.15))
+    spec = models.single_op_model(rng, variant, odd=True, wide=bool(rng.random() < 0.15), huge_w_p=(0.5 if rng.random() < 0.1 else 0.0))
     datasets = common.make_data(rng, spec)
     ok, _ = common.admit(spec, datasets)
     if not ok:
